@@ -120,7 +120,7 @@ def run(ctx):
                 sks.append(("default", skel([a, g, b])))
     two = [(a, g1, b, g2, c) for a in TEXTS[:6] for g1 in tags2 for b in TEXTS[:6] for g2 in tags2 for c in TEXTS[:6]]
     if ctx.tier != "thorough":
-        two = ctx.rng.sample(two, 12000)
+        two = ctx.rng.sample(two, 8000)
     for p in two:
         sks.append(("default", skel(list(p))))
     for _ in range(ctx.size(4000, 40000)):
@@ -146,7 +146,7 @@ def run(ctx):
         for g in [g for g in cr_tags if g[0] in "bc"]:
             for b in CR_TEXTS:
                 cr_sks.append([a, g, b])
-    for _ in range(ctx.size(5000, 50000)):
+    for _ in range(ctx.size(4000, 50000)):
         parts = []
         for i in range(ctx.rng.randint(1, 5)):
             parts.append("".join(ctx.rng.choice([" ", "\r", "\r\n", "\n", "\t", "a", "b\r", " \r "]) for _ in range(ctx.rng.randint(0, 4))))
